@@ -145,10 +145,9 @@ def configs(fp, cls):
             if "additional_starts" in sig:
                 kw["additional_starts"] = ["a"]
                 kw["additional_ends"] = ["b"]
-        if cls != "kPathCover":      # kPathCover(cover_type='node') fails with TypeError (reported under C19)
-            mk("node", node, node=True)
+        mk("node", node, node=True)
         mk("defaults", lambda kw: None)
-        mk("defaults_node", lambda kw: None, node=(cls != "kPathCover"))
+        mk("defaults_node", lambda kw: None, node=True)
     elif cls == "MinGenSet":
         def b1():
             kw = {"numbers": [2, 3, 5], "total": 5, "weight_type": int, "partition_constraints": [[2, 3]], "solver_options": dict(SOLVER_OPTS)}
